@@ -720,25 +720,37 @@ fn judge_one_sided_class(rep: &mut Rep, st: &mut Stats, name: &str, side: Side, 
 // ---------------------------------------------------------------------------------------------
 // entry names
 
+/// a signature file in the sense of the statement: `META-INF/<file>.SF` / `META-INF/<file>.RSA`, directly in `META-INF/`
+/// (JAR specification, "Signed JAR File": the signature file and the signature block file lie in the META-INF directory)
 pub fn is_signature_file(name: &str) -> bool {
-	name.starts_with("META-INF/") && (name.ends_with(".SF") || name.ends_with(".RSA"))
+	match name.strip_prefix("META-INF/") {
+		Some(rest) => !rest.contains('/') && (rest.ends_with(".SF") || rest.ends_with(".RSA")),
+		None => false,
+	}
 }
 
-/// signature-related names the statement does not clearly speak about (JAR specification: *.DSA, *.EC, SIG-*)
+/// signature-related names the statement does not clearly speak about: other algorithms (`*.DSA`, `*.EC`, `SIG-*`), the same
+/// names in another case (`JarFile` and `jarsigner` match them case-insensitively) or in a sub-directory of `META-INF/`
 fn is_other_signature_file(name: &str) -> bool {
-	name.starts_with("META-INF/") && (name.ends_with(".DSA") || name.ends_with(".EC") || name.starts_with("META-INF/SIG-"))
+	let u = name.to_ascii_uppercase();
+	u.starts_with("META-INF/") && ([".SF", ".RSA", ".DSA", ".EC"].iter().any(|e| u.ends_with(e)) || u.starts_with("META-INF/SIG-"))
+}
+
+/// the manifest proper, or a name `java.util.jar.JarFile` would take for it (it matches the name case-insensitively)
+pub fn is_manifest_name(name: &str) -> bool {
+	name.eq_ignore_ascii_case("META-INF/MANIFEST.MF")
 }
 
 const LIBRARY_PREFIXES: &[&str] = &["com/google/", "org/apache/", "io/netty/", "it/unimi/", "joptsimple/", "javax/", "org/slf4j/", "com/fasterxml/"];
 
 #[derive(PartialEq, Clone, Copy, Debug)]
-enum Presence {
+pub enum Presence {
 	Required,
 	Forbidden,
 	Either,
 }
 
-fn presence(name: &str, in_client: bool, in_server: bool) -> (Presence, &'static str) {
+pub fn presence(name: &str, in_client: bool, in_server: bool) -> (Presence, &'static str) {
 	if is_signature_file(name) {
 		return (Presence::Forbidden, "signature-file");
 	}
@@ -748,7 +760,13 @@ fn presence(name: &str, in_client: bool, in_server: bool) -> (Presence, &'static
 	// "bundled server libraries": merge.rs skips server-only `.class` entries that are in a package other than
 	// net/minecraft/. The statement names no packages, so only well-known third-party packages are demanded
 	// to be absent; anything else that could pass for library content may stay or go.
-	if name.contains('/') && !name.starts_with("net/minecraft/") && !name.starts_with("META-INF/") {
+	if name.to_ascii_uppercase().starts_with("META-INF/") {
+		// classes below META-INF/ are the per-release variants of a multi-release jar (META-INF/versions/N/...): whether
+		// those of the server are "bundled library" content cannot be told from the statement
+		if in_server && !in_client && name.ends_with(".class") {
+			return (Presence::Either, "server-only-class-below-META-INF");
+		}
+	} else if name.contains('/') && !name.starts_with("net/minecraft/") {
 		let well_known = LIBRARY_PREFIXES.iter().any(|p| name.starts_with(p));
 		if in_server && !in_client {
 			if name.ends_with(".class") {
@@ -941,9 +959,10 @@ fn judge_run(rep: &mut Rep, st: &mut Stats, driver: Driver, cin: &Entries, sin: 
 			}
 		}
 		let (cb, sb) = (file(ci), file(si));
-		if *name == "META-INF/MANIFEST.MF" {
+		if is_manifest_name(name) {
 			// the statement asks for the entry, not for a particular content
-			st.outcome(if Some(rb) == cb { "manifest:client-content" } else if Some(rb) == sb { "manifest:server-content" } else { "manifest:other-content" });
+			let which = if *name == "META-INF/MANIFEST.MF" { "manifest" } else { "manifest-name-in-other-case" };
+			st.outcome(&format!("{which}:{}", if Some(rb) == cb { "client-content" } else if Some(rb) == sb { "server-content" } else { "other-content" }));
 			continue;
 		}
 		if !name.ends_with(".class") {
